@@ -108,7 +108,9 @@ Qed.
 (* what the read loop owns, and what neither loop owns *)
 Definition rlview (c : sconn) := (sc_expectCont c, sc_rl_done c, sc_readerQ c, (sc_closer c, sc_wl_dead c, sc_now c)).
 
-Lemma rlview_lite c c' : lite c c' -> rlview c' = rlview c.
+Lemma rlview_lite c c' : lite cfg c c' -> rlview c' = rlview c.
+Proof. intros [H _]. unfold same_core in H. decompose [and] H. unfold rlview. congruence. Qed.
+Lemma rlview_quiet c c' : quiet_core c c' -> rlview c' = rlview c.
 Proof. intros [H _]. unfold same_core in H. decompose [and] H. unfold rlview. congruence. Qed.
 
 Lemma rlview_emit c o : rlview (emit c o) = rlview c.
@@ -211,7 +213,7 @@ Theorem sl_timer_frame c : rlview (fst (sl_timer cfg c)) = rlview c.
 Proof. unfold sl_timer. destruct (_ <=? 0)%Z; cbn [fst cont]; [reflexivity | apply rlview_close_heads]. Qed.
 
 Lemma rlview_discard_header_block c fr : rlview (fst (discard_header_block dec_field cfg c fr)) = rlview c.
-Proof. apply rlview_lite, lite_discard_header_block. Qed.
+Proof. apply rlview_quiet, quiet_discard_header_block. Qed.
 
 Lemma rlview_discard_or_break (r : sconn * option h2err) : rlview (fst (discard_or_break r)) = rlview (fst r).
 Proof.
@@ -223,7 +225,7 @@ Lemma rlview_handle_frame c s fr : rlview (fst (fst (handle_frame dec_field cfg 
 Proof.
   (* handle_frame is lite while the loop runs; its only outputs are window updates, which keep rlview anyway *)
   unfold handle_frame. destruct (verify_state s fr); [reflexivity|].
-  pose proof (rlview_lite _ _ (lite_handle_header_frame _ dec_field cfg c s fr)) as LH.
+  pose proof (rlview_quiet _ _ (quiet_handle_header_frame _ dec_field cfg c s fr)) as LH.
   match goal with |- context [match sf_kind fr with KHeaders => ?X | _ => _ end] => set (hb := X) end.
   assert (HH : rlview (fst (fst hb)) = rlview c).
   { subst hb. destruct (_ && _)%bool; [reflexivity|].
@@ -352,6 +354,37 @@ Proof.
   match goal with |- context [finish_request enc_field c ?s1 r] =>
     pose proof (rlview_finish_request c s1 r) as L; destruct (finish_request enc_field c s1 r) as [[c1 s2] fin] end.
   cbn [fst] in L. cbv zeta. rewrite rlview_brk_if. destruct fin; rewrite ?rlview_close_stream, rlview_put; exact L.
+Qed.
+
+(* ---------- at the level of events ---------- *)
+Notation step := (step dec_field enc_field enc_set_max cfg).
+
+(* an event of the read loop changes nothing the stream loop owns *)
+Theorem read_loop_event_frame c i : slview (step c (EvRL i)) = slview c.
+Proof. rewrite step_EvRL. destruct (sc_rl_done c); [reflexivity | apply rl_step_frame]. Qed.
+
+Definition stream_loop_event (e : event) : Prop :=
+  match e with EvSL | EvDone _ _ | EvTimer | EvCloser => True | _ => False end.
+
+(* an event of the stream loop leaves the read loop's variables alone and at most takes the head of sc.reader *)
+Theorem stream_loop_event_frame c e : stream_loop_event e ->
+  sc_expectCont (step c e) = sc_expectCont c /\ sc_rl_done (step c e) = sc_rl_done c /\
+  (sc_readerQ (step c e) = sc_readerQ c \/ exists fr, sc_readerQ c = fr :: sc_readerQ (step c e)).
+Proof.
+  assert (P : forall a b : sconn, rlview a = rlview b ->
+              sc_expectCont a = sc_expectCont b /\ sc_rl_done a = sc_rl_done b /\ sc_readerQ a = sc_readerQ b).
+  { unfold rlview. intros a b H. inversion H. auto. }
+  destruct e; cbn [stream_loop_event]; try contradiction; intros _.
+  - rewrite step_EvSL. destruct (sc_sl_done c); [auto|].
+    destruct (sc_readerQ c) as [|fr q] eqn:RQ.
+    + destruct (sc_rl_done c) eqn:Hr; [|rewrite RQ; auto]. cbn. rewrite RQ. auto.
+    + destruct (P _ _ (sl_frame_frame (upd_readerQ c q) fr)) as (E1 & E2 & E3). rewrite E1, E2, E3.
+      repeat split. right. exists fr. reflexivity.
+  - rewrite step_EvDone. destruct (sc_sl_done c); [auto|].
+    destruct (P _ _ (sl_done_frame c sid r)) as (E1 & E2 & E3). rewrite E1, E2, E3. auto.
+  - rewrite step_EvTimer. destruct (sc_sl_done c); [auto|].
+    destruct (P _ _ (sl_timer_frame c)) as (E1 & E2 & E3). rewrite E1, E2, E3. auto.
+  - rewrite step_EvCloser. destruct (_ && _)%bool; auto.
 Qed.
 
 End Frame.
